@@ -1068,9 +1068,11 @@ nlopt_result NLOPT_STDCALL nlopt_optimize(nlopt_opt opt, double *x, double *opt_
 
     if (memoize_wrapcheck(opt))
     {
-        memcpy(x, mmzd.bestx, opt->n * sizeof(double));
+        if (mmzd.minf < DBL_MAX) {      /* some evaluated point was recorded */
+            memcpy(x, mmzd.bestx, opt->n * sizeof(double));
+            *opt_f = mmzd.minf;
+        }
         free(mmzd.bestx);
-        *opt_f = mmzd.minf;
         opt->f = mmzd.f;
         opt->f_data = mmzd.f_data;
     }
